@@ -13,6 +13,7 @@ from ..oracle import ignoreref, xmlread
 from .c07 import _printed
 
 VERBOSITY = False  # stdout of verify -dh -co is parsed / runs must be identical
+TECHNIQUE = 'runtime monitoring: accumulation-model checker for <ignore> lists, independent matcher for record sets, differential directory hashes, exit-code oracle after edits under ignored paths'
 LEVEL = "exploration"
 RULE = (
     "case = tree with pattern fodder x 1-5 generations, each adding patterns via -i (repeated, duplicates) and/or an -ii file, "
